@@ -16,9 +16,18 @@ FRAMEWORKS = ["base", "pydantic", "sqlmodel", "attrs", "dataclasses"]
 CLS = {c.__name__: c for c in ALL_PSEUDO}
 
 
-def key_facts(key):
+def key_facts(key, convert_unicode=True):
     t = unidecode(key)
     fold = re.sub(r"[^0-9a-zA-Z]", "", t).lower()
+    if not convert_unicode:
+        # without transliteration "punctuation" is whatever cannot be part of an identifier (superscripts, fractions, a combining mark
+        # with nothing to sit on), and case / compatibility variants fold together (NFKC + casefold, as the compiler reads names)
+        import unicodedata
+        ident = "".join(ch for ch in unicodedata.normalize("NFKC", key) if ("a" + ch).isidentifier() and ch != "_")
+        while ident and not ident[0].isidentifier() and unicodedata.digit(ident[0], None) is None:
+            ident = ident[1:]
+        fold2 = unicodedata.normalize("NFKC", ident).casefold()
+        fold = fold2
     # the label pipeline drops every non-word character first: what leads the key is its first WORD character
     first = re.sub(r"\W", "", key)[:1]
     lead = "alpha" if first.isalpha() else "digit" if first.isdigit() else "under" if first == "_" else "other"
@@ -85,13 +94,13 @@ def module_event(roots, envspec, policy, fw, layout, kw=None, I=None, want=(), i
     keys = set()
     for _, samples in roots:
         _all_keys(samples, keys)
-    ev["keyfacts"] = {I(k): key_facts(k) for k in keys}
+    ev["keyfacts"] = {I(k): key_facts(k, kw.get("convert_unicode", True)) for k in keys}
     for f in ev["keyfacts"].values():
         f["fold"] = I(f["fold"])
     if res.get("names_before"):
         # model names that are equal after case/punctuation folding collide as class names (fold-equal keys in different
         # objects): the "folded-equal keys" known finding of C11 -> such inputs are out of the documented domain
-        folds = [key_facts(n or "")["fold"] for n in res["names_before"].values()]
+        folds = [key_facts(n or "", kw.get("convert_unicode", True))["fold"] for n in res["names_before"].values()]
         if len(set(folds)) != len(folds):
             ev["indomain"] = False
             ev["namesdomain"] = False
@@ -422,13 +431,14 @@ def key_cases(chk, n):
     for i in range(n):
         nk = rng.randint(1, 3)
         indomain = rng.random() < 0.85
+        cu = rng.random() >= 0.4          # unicode conversion on / off: folding (what counts as the same key) depends on it
         if indomain:
             keys, folds = [], set()
             tries = 0
             while len(keys) < nk and tries < 200:
                 tries += 1
                 k = wide_key(rng)
-                f = key_facts(k)
+                f = key_facts(k, cu)
                 if not f["letter"] or f["lead"] in ("under", "other") or not f["fold"] or f["fold"] in folds:
                     continue
                 # leading punctuation is stripped by the label pipeline: keep the first letter-ish
@@ -441,8 +451,8 @@ def key_cases(chk, n):
         obj = {k: rng.choice([1, "s", None, [1], {"q": 1}]) for k in keys}
         nested_key = wide_key(rng) if rng.random() < 0.5 else "child"
         samples = [dict(obj), dict(obj)]
-        if rng.random() < 0.5 and key_facts(nested_key)["letter"] and key_facts(nested_key)["lead"] == "alpha" \
-                and key_facts(nested_key)["fold"] not in ({"z9"} | {key_facts(k)["fold"] for k in keys}):
+        if rng.random() < 0.5 and key_facts(nested_key, cu)["letter"] and key_facts(nested_key, cu)["lead"] == "alpha" \
+                and key_facts(nested_key, cu)["fold"] not in ({"z9"} | {key_facts(k, cu)["fold"] for k in keys}):
             samples[0] = {nested_key: dict(obj), "z9": 1}
             samples[1] = {nested_key: dict(obj), "z9": None}
         fw = rng.choice(FRAMEWORKS)
@@ -451,7 +461,7 @@ def key_cases(chk, n):
         kw = {}
         if fw in ("attrs", "dataclasses"):
             kw["meta"] = rng.random() < 0.7
-        if rng.random() < 0.4:
+        if not cu:
             kw["convert_unicode"] = False
         cases.append(dict(roots=[("Root", samples)], envspec={}, policy=DR.POLICIES[1], fw=fw,
                           layout=rng.choice(["flat", "nested"]), kw=kw, indomain=indomain))
